@@ -6,7 +6,7 @@ import traceback
 
 from .model import Program, AnalysisError, Inconclusive
 from .resolve import Resolver
-from .norm import normalize_calls, normalize_membership, normalize_ifexp, normalize_next_genexp, normalize_counting_while, unroll_display_loops, normalize_suppress
+from .norm import normalize_calls, normalize_membership, normalize_ifexp, normalize_next_genexp, normalize_counting_while, unroll_display_loops, normalize_suppress, normalize_yield_from_genexp
 from .excflow import ExcFlow
 from .effects import Effects
 
@@ -49,6 +49,7 @@ class Ctx:
     def __init__(self, sources=None, tier="quick"):
         self.P = Program(sources) if sources is not None else Program.from_repo()
         normalize_suppress(self.P)
+        normalize_yield_from_genexp(self.P)
         self.R = Resolver(self.P)
         self.calls_normalised = normalize_calls(self.P, self.R)
         normalize_membership(self.P)
